@@ -250,11 +250,11 @@ def execute(plan: dict) -> dict:
 
 # ----------------------------------------------------------------------------------------------
 
-NEEDS = {"sb2_config": "sb2", "fork": "sb2", "sb2": "sb2", "mbi_class": "mbi", "mbi_config": "mbi", "otfad": "otfad", "iee": "iee", "bee": "bee", "hab": "hab", "hab_rt": "habrt", "bee_config": "bee", "iee_config": "iee", "sb2_keywrap": "sb2", "hab_full": "habfull"}
+NEEDS = {"sb2_config": "sb2", "fork": "sb2", "sb2": "sb2", "mbi_class": "mbi", "mbi_config": "mbi", "otfad": "otfad", "otfad_config": "otfad", "iee": "iee", "bee": "bee", "hab": "hab", "hab_rt": "habrt", "bee_config": "bee", "iee_config": "iee", "sb2_keywrap": "sb2", "hab_full": "habfull"}
 
 
 def gen_op(rng: random.Random, allow_fork: bool = True) -> dict:
-    kind = rng.choice(["sb2"] * 5 + ["sb2_config"] * 2 + ["sb2_keywrap"] + ["mbi_class"] * 2 + ["mbi_config"] * 2 + ["otfad"] * 3 + ["iee"] * 3 + ["bee"] * 4 + ["bee_config"] * 2 + ["iee_config"] * 2 + ["hab"] * 2 + ["hab_full"] * 2 + ["hab_rt"] * 2 + (["fork"] if allow_fork else []))
+    kind = rng.choice(["sb2"] * 5 + ["sb2_config"] * 2 + ["sb2_keywrap"] + ["mbi_class"] * 2 + ["mbi_config"] * 2 + ["otfad"] * 3 + ["otfad_config"] * 2 + ["iee"] * 3 + ["bee"] * 4 + ["bee_config"] * 2 + ["iee_config"] * 2 + ["hab"] * 2 + ["hab_full"] * 2 + ["hab_rt"] * 2 + (["fork"] if allow_fork else []))
     if kind == "fork":
         def sub():
             return [gen_op(rng, allow_fork=False) for _ in range(rng.randint(1, 3))]
@@ -288,6 +288,13 @@ def gen_op(rng: random.Random, allow_fork: bool = True) -> dict:
         o["export_twice"] = rng.random() < 0.4
         o["variant"] = rng.choice(["implicit", "implicit", "explicit_key", "explicit_key_ctr", "explicit_key_ctr"])
         o["x"] = rng.randrange(2)
+    elif kind == "otfad_config":
+        o["explicit_kek"] = rng.random() < 0.25
+        o["reuse_config"] = rng.random() < 0.6
+        o["nblobs"] = rng.choice([1, 2])
+        o["family"] = rng.choice(["mimxrt595s", "mimxrt1010"])
+        o["x"] = rng.randrange(2)
+        o["export"] = rng.random() < 0.4
     elif kind == "iee":
         o["ctr"] = rng.random() < 0.5
         o["big"] = rng.random() < 0.3
@@ -327,7 +334,7 @@ def gen_plan(family: str, i: int, rng: random.Random, tier: str) -> dict:
             # (one configuration dictionary, one helper object, one image object, one project folder)
             twin = gen_op(rng, allow_fork=False)
             for _ in range(50):
-                if twin["op"] in ("bee_config", "sb2_config", "iee", "mbi_config", "otfad", "hab", "hab_full", "sb2_keywrap", "iee_config"):
+                if twin["op"] in ("bee_config", "sb2_config", "iee", "mbi_config", "otfad", "hab", "hab_full", "sb2_keywrap", "iee_config", "otfad_config"):
                     break
                 twin = gen_op(rng, allow_fork=False)
             if twin["op"] == "bee_config":
@@ -340,6 +347,8 @@ def gen_plan(family: str, i: int, rng: random.Random, tier: str) -> dict:
                 twin["reuse_object"] = True
             elif twin["op"] == "otfad":
                 twin.update(export=True)
+            elif twin["op"] == "otfad_config":
+                twin.update(explicit_kek=False, reuse_config=True)
             at = rng.randrange(len(ops) + 1)
             ops[at:at] = [twin, copy.deepcopy(twin)]
         mods = []
